@@ -21,12 +21,13 @@ ASSUMPTIONS = [
     "sequential consistency at the granularity of Python attribute loads/stores and of the labelled lock, condition, socket and trigger operations (DESIGN.md 4.3); pre-emption inside C code is not modelled",
     "the client keeps reading: the socket is write-ready whenever it is polled for writing; the poll timeout does not exist (select blocks until a descriptor is ready or the trigger was pulled)",
     "maintenance() and cancel() (server shutdown) are outside the model; one channel per I/O loop",
-    "outbuf_high_watermark >= 1, and the runs are outside the three finding classes (the flush of a worker-side send_continue raises; the exception branch of _flush_outbufs_below_high_watermark entered after handle_close; send_bytes > outbuf_high_watermark, which spins instead of becoming quiescent)",
+    "outbuf_high_watermark >= 0, and the runs are outside the one open finding class (the flush of a worker-side send_continue raises through service())",
 ]
 
-EXPLORE_QUICK = ["0 1 2 0 1 1 1.3 400000 1 r", "0 2 2 1 1 2 1.3 400000 0 r.rr", "1 1 2 0 2 1 2 400000 1 rr"]
-EXPLORE_THOROUGH = ["0 1 2 0 1 1 1.3 3000000 1 r", "0 2 2 1 1 2 1.3 3000000 0 r.rr", "1 2 2 1 2 2 3 3000000 1 r.rr",
-                    "0 1 1 1 2 2 1.2 3000000 1 rr.h", "2 3 3 0 3 2 1.4 3000000 1 rr", "0 3 2 0 1 1 1.3 3000000 0 r"]
+EXPLORE_QUICK = ["0 1 2 0 1 1 1.3 400000 1 r", "0 2 0 1 1 2 1.3 400000 0 r.rr", "1 3 2 0 2 1 2 400000 1 rr"]
+EXPLORE_THOROUGH = ["0 1 2 0 1 1 1.3 3000000 1 r", "0 2 0 1 1 2 1.3 3000000 0 r.rr", "1 2 2 1 2 2 3 3000000 1 r.rr",
+                    "0 1 1 1 2 2 1.2 3000000 1 rr.h", "2 3 3 0 3 2 1.4 3000000 1 rr", "0 3 2 0 1 1 1.3 3000000 1 r",
+                    "0 1 0 1 2 2 2 3000000 0 rh.b.r"]
 
 
 def _hash(obj):
@@ -49,7 +50,7 @@ def scenario_stream(rng, n):
                                for _ in range(rng.choice([2, 6]))]
             yield "streaming-app", sc
         elif k < 0.78:
-            yield "watermark0", cw.gen_scenario(rng, hw_choices=(0,), sb_choices=(1,))
+            yield "watermark=0", cw.gen_scenario(rng, hw_choices=(0,), sb_choices=(1,))
         elif k < 0.85:
             yield "sendbytes>watermark", cw.gen_scenario(rng, hw_choices=(1, 60, 120), sb_choices=(150, 400), sb_any=True)
         else:
@@ -148,7 +149,7 @@ class Book:
 
 # One replay (scenario + schedule) per finding class, found by this check's own search; re-run on every
 # check so that a finding that stops reproducing is noticed.
-FINDING_REPLAYS = {"kf_c05_continue_raises": {"choices": [0, 0, 0, 0, 1, 0, 0, 0, 0, 0, 0, 0, 0, 0, 0, 0, 1, 0, 0, 0, 0, 0, 0, 0, 0, 0, 0, 0, 0, 0, 0], "scenario": {"adj": {"channel_request_lookahead": 0, "outbuf_high_watermark": 16777216, "send_bytes": 150}, "client_close": False, "gran": "locks", "poll": False, "recv_faults": {}, "reqs": [{"chunks": [10], "cl": True, "path": "/a"}, {"chunks": [5], "cl": True, "expect": True, "path": "/b"}], "segs": [[0, 1], [2]], "send_plan": [["err", 113], None, 0, ["err", 113], 0], "sndbuf": 30, "workers": 1}}, "kf_c05_park_after_close": {"choices": [0, 0, 0, 1, 0, 1, 0, 3, 1, 2, 1, 1, 0, 1, 2, 0, 0, 0, 0, 0, 0, 0, 0, 0, 0, 0, 0, 0, 0, 0, 0, 0, 0, 0, 0, 0, 0, 0, 0, 0, 0, 0, 1, 0, 1, 1, 0, 0, 0, 1, 0, 1, 0, 0, 1, 1, 1, 1, 0, 1, 0, 0, 0, 0, 0, 0, 0, 1, 0, 1, 0, 1, 0, 1, 0, 1, 1, 1, 0, 1, 0, 0, 1, 0, 1, 0, 0, 0, 1, 0, 1, 0, 0, 0, 1, 1, 1, 0, 0, 1, 0, 0, 1, 1, 1, 1, 1, 1, 1, 0, 0, 0, 1, 0, 0, 0, 0, 0, 1, 0, 0, 0, 0, 0, 0], "scenario": {"adj": {"channel_request_lookahead": 0, "outbuf_high_watermark": 120, "send_bytes": 1}, "client_close": True, "gran": "attrs", "poll": False, "recv_faults": {}, "reqs": [{"chunks": [40], "cl": False, "close": False, "expect": False, "iter": False, "path": "/r0", "v": "1.1"}, {"chunks": [200], "cl": False, "close": False, "expect": False, "iter": True, "path": "/r1", "v": "1.1"}, {"chunks": [40, 5, 1], "cl": True, "close": False, "expect": False, "iter": True, "path": "/r2", "v": "1.1"}], "segs": "one", "send_plan": [["err", 113], 90, ["err", 113], 0, ["err", 113], 0, ["err", 32], 20, 0], "sndbuf": 100, "workers": 2}}, "kf_c05_sendbytes_gt_watermark": {"choices": [], "max_steps": 600, "scenario": {"adj": {"channel_request_lookahead": 1, "outbuf_high_watermark": 60, "send_bytes": 400}, "client_close": False, "gran": "locks", "poll": False, "recv_faults": {}, "reqs": [{"chunks": [5], "cl": False, "close": False, "expect": False, "iter": True, "path": "/r0", "v": "1.1"}], "segs": "one", "send_plan": [0, 20], "sndbuf": 30, "workers": 1}}, "kf_c05_watermark0": {"choices": [0, 0, 0, 1, 0, 1, 0, 1, 0, 2, 2, 0, 0, 0, 0, 0, 0, 0, 0, 0, 0, 0, 0, 0, 0, 0, 0, 0, 0, 0, 0, 0, 0, 0, 0], "scenario": {"adj": {"channel_request_lookahead": 2, "outbuf_high_watermark": 0, "send_bytes": 1}, "client_close": False, "gran": "locks", "poll": False, "recv_faults": {}, "reqs": [{"chunks": [200, 40, 40], "cl": False, "close": False, "expect": False, "iter": True, "path": "/r0", "v": "1.1"}, {"chunks": [1], "cl": True, "close": False, "expect": False, "iter": False, "path": "/r1", "v": "1.1"}, {"chunks": [300, 40, 200], "cl": True, "close": False, "expect": False, "iter": True, "path": "/r2", "v": "1.0"}], "segs": "one", "send_plan": [["err", 32], ["err", 32]], "sndbuf": 65536, "workers": 2}}}
+FINDING_REPLAYS = {"kf_c05_continue_raises": {"choices": [0, 0, 0, 0, 1, 0, 0, 0, 0, 0, 0, 0, 0, 0, 0, 0, 1, 0, 0, 0, 0, 0, 0, 0, 0, 0, 0, 0, 0, 0, 0], "scenario": {"adj": {"channel_request_lookahead": 0, "outbuf_high_watermark": 16777216, "send_bytes": 150}, "client_close": False, "gran": "locks", "poll": False, "recv_faults": {}, "reqs": [{"chunks": [10], "cl": True, "path": "/a"}, {"chunks": [5], "cl": True, "expect": True, "path": "/b"}], "segs": [[0, 1], [2]], "send_plan": [["err", 113], None, 0, ["err", 113], 0], "sndbuf": 30, "workers": 1}}}
 
 
 def run(ctx):
@@ -246,7 +247,7 @@ def run(ctx):
         "samples": book.samples,
         "distribution": "58%% main generator (1-3 requests, 1-3 chunks of 1..600 bytes, send_bytes in {1,50,150} <= watermark in {1,60,120,250,16MiB}, "
                         "lookahead 0..2, 1-3 workers, partial-send plans with EWOULDBLOCK/EPIPE/EHOSTUNREACH, 8%% recv faults, 30%% client close, "
-                        "locks/attrs granularity and poll/poll2 50/50); 12%% streaming application that waits for its consumer after every chunk (a worker parked in the application is a quiescent state too); 8%% watermark 0; 7%% send_bytes > watermark; 15%% pipelined Expect: 100-continue; "
+                        "locks/attrs granularity and poll/poll2 50/50); 12%% streaming application that waits for its consumer after every chunk (a worker parked in the application is a quiescent state too); 8%% watermark 0; 7%% send_bytes > watermark (both repaired finding classes, now expected to pass); 15%% pipelined Expect: 100-continue; "
                         "schedules 45%% uniform random (stay 0..0.9), 55%% PCT depth 1-3; plus bounded exhaustive (pre-emption bound %d) on 8 tiny scenarios" % (2 if thorough else 1),
     })
 
